@@ -237,7 +237,7 @@ def histogramdd(sample, epsilon=1.0, bins=10, range=None, weights=None, density=
 
     # Range only required if bin edges not specified
     if np.array(bins, dtype=object).ndim == 0 or not np.all([np.ndim(_bin) for _bin in bins]):
-        if range is None or (isinstance(range, list) and None in range):
+        if range is None or any(_range is None for _range in range):
             warnings.warn("Range parameter has not been specified (or has missing elements). Falling back to taking "
                           "range from the data.\n "
                           "To ensure differential privacy, and no additional privacy leakage, the range must be "
